@@ -153,13 +153,23 @@ func (m *runtimeContextManager) PopContext() RuntimeContext {
 	if mCopy.status == StatusLive {
 		mCopy.status = StatusDone
 	}
-	m.parent.RequireCPU(m.usedResources.Cpu)
-	m.parent.RequireMem(m.usedResources.Memory)
-	*m = *m.parent
+	m.chargeAndRestoreParent()
 	if m.trackTime {
 		m.updateTimeUsed()
 	}
 	return &mCopy
+}
+
+// chargeAndRestoreParent charges the resources used by the active context to
+// its parent and makes the parent the active context again.  Charging may
+// terminate the parent (i.e. panic): the parent must become the active context
+// in that case too, so that the context stack is consistent for the enclosing
+// CallContext that recovers from the termination.
+func (m *runtimeContextManager) chargeAndRestoreParent() {
+	parent := m.parent
+	defer func() { *m = *parent }()
+	parent.RequireCPU(m.usedResources.Cpu)
+	parent.RequireMem(m.usedResources.Memory)
 }
 
 func (m *runtimeContextManager) RequireCPU(cpuAmount uint64) {
